@@ -5,3 +5,4 @@ pub mod vmrun;
 pub mod pipe;
 pub mod c05;
 pub mod c06;
+pub mod c20;
